@@ -94,6 +94,82 @@ def impl_replay(job):
     return {"out": out}
 
 
+def impl_replay_dv(job):
+    """DelayVolumeSsa behaviours through DelayVolumeSSASimulator / py_simulate_model(delay=True, volume=..)."""
+    import numpy as np
+    from bioscrape.types import Volume, StochasticTimeThresholdVolume
+    from bioscrape.simulator import (ModelCSimInterface, SafeModelCSimInterface, DelayVolumeSSASimulator, ArrayDelayQueue,
+                                     py_simulate_model)
+    import bioscrape.random as brandom
+    out = []
+    for rec in job["recs"]:
+        res = {"ok": True}
+        try:
+            nt, dt, V0, G = rec["nt"], f(rec["dt"]), f(rec["V0"]), rec["G"]
+            tp = np.array([i * dt for i in range(nt)])
+            m, _ = build(rec["prog"], x0=[[v, 1] for v in rec["x0"]], ns=rec["ns"], via_ctor=job["via"] == 1)
+            s2i = m.get_species2index()
+            cols = [s2i["S%d" % (i + 1)] for i in range(rec["ns"])]
+            nr = len(rec["prog"]["rx"])
+            if G == 1:
+                vol = Volume()
+            else:
+                vol = StochasticTimeThresholdVolume(dt, 1e9, 0.0)       # doubling per dt, never initialised: never divides
+            vol.py_set_volume(V0)
+            draws = draws_for(rec["steps"])
+            brandom.py_verif_script(draws + [0.5] * 4)
+            if job["via"] == 2 and not rec.get("preload"):
+                r = py_simulate_model(tp, Model=m, stochastic=True, delay=True, safe=rec["safe"], volume=(V0 if G == 1 else vol), return_dataframe=False)
+            else:
+                itf = SafeModelCSimInterface(m) if rec["safe"] else ModelCSimInterface(m)
+                itf.py_set_dt(dt)
+                q = ArrayDelayQueue.setup_queue(nr, nt, dt)
+                for k, rr, c in rec.get("preload", []):
+                    q.py_add_reaction(k * dt, rr - 1, float(c))
+                r = DelayVolumeSSASimulator().py_delay_volume_simulate(itf, q, vol, tp)
+            used, _, under = brandom.py_verif_script_status()
+            brandom.py_verif_script(None)
+            got = r.py_get_result()
+            rows = [[float(got[i, c]) for c in cols] for i in range(got.shape[0])]
+            want = [[float(v) for v in row] for row in rec["rows"]]
+            vols = [float(v) for v in r.py_get_volume()]
+            wantv = [V0 * G ** k for k in rec["vols"]]
+            fq = r.py_get_delay_queue()
+            nqt = fq.py_get_next_queue_time()
+            pend = []
+            for _ in range(nt):
+                a = np.zeros(nr)
+                fq.py_get_next_reactions(a)
+                fq.py_advance_time()
+                pend.append([float(v) for v in a])
+            wantp = [[float(v) for v in slot] for slot in rec["pending"]]
+            if rows != want:
+                k = next((i for i in range(min(len(rows), len(want))) if rows[i] != want[i]), -1)
+                res = {"ok": False, "what": "rows", "detail": "row %d: got %r expected %r" % (k, rows[k] if k >= 0 else None, want[k] if k >= 0 else None)}
+            elif used != len(draws):
+                res = {"ok": False, "what": "draws", "detail": "consumed %d draws, the behaviour has %d" % (used, len(draws))}
+            elif len(vols) != len(wantv) or any(abs(a - b) > 1e-9 * b for a, b in zip(vols, wantv)):
+                res = {"ok": False, "what": "volume", "detail": "volume trace %r, expected %r" % (vols, wantv)}
+            elif abs(nqt - rec["slot"] * dt) > 1e-9:
+                res = {"ok": False, "what": "queue-clock", "detail": "final next queue time %r, expected %r" % (nqt, rec["slot"] * dt)}
+            elif pend != wantp:
+                res = {"ok": False, "what": "pending", "detail": "still-queued deliveries %r, expected %r" % (pend, wantp)}
+        except BaseException as e:  # noqa
+            try:
+                brandom.py_verif_script(None)
+            except Exception:
+                pass
+            res = {"ok": False, "what": "exception", "detail": repr(e)[:300]}
+        out.append(res)
+    return {"out": out}
+
+
+def dvssa_cfg(name, ns, maxrx, maxside, nt):
+    return common.make_cfg(name, spec="Spec", constants={"NS": str(ns), "MaxRx": str(maxrx), "MaxSide": str(maxside), "NT": str(nt)},
+                           invariants=["Accounting", "StateAccounting", "PendingAhead", "OneStepPerDt", "VolumeTrace", "Emit"],
+                           properties=["ZeroDelayImmediate"])
+
+
 def dssa_cfg(name, ns, maxrx, maxside, nt):
     return common.make_cfg(name, spec="Spec", constants={"NS": str(ns), "MaxRx": str(maxrx), "MaxSide": str(maxside), "NT": str(nt)},
                            invariants=["Accounting", "StateAccounting", "PendingAhead", "Emit"], properties=["ZeroDelayImmediate"])
@@ -133,6 +209,22 @@ def run(tier):
             else:
                 fams = "+".join(sorted({rx["delay"]["type"] for rx in rec["prog"]["rx"]}))
                 v.violation("replay:%s:%s" % (got["what"], fams), got["detail"], {"rec": rec, "via": job["via"], "got": got})
+    # ---- the delay + volume simulator (DelayVolumeSsa.tla)
+    g3 = common.run_tlc_many("DelayVolumeSsa", dvssa_cfg("dvssa_a", 2, 3, 2, 6), 8, n // 2, 180, seed + 41, allow_violation=True)
+    if g3.violated:
+        v.violation("spec:" + g3.violated, "TLC refuted %s on DelayVolumeSsa.tla" % g3.violated, {"tlc_tail": g3.stdout[-3000:]})
+    jobs3 = [{"recs": ch, "via": i % 3} for i, ch in enumerate(pool.chunks(g3.records, 60))]
+    ok_dv = 0
+    for job, res in zip(jobs3, pool.run_jobs("c10", "impl_replay_dv", jobs3)):
+        if "harness_exception" in res:
+            raise common.MachineryError("C10 harness failed: %s\n%s" % (res["harness_exception"], res.get("tb", "")))
+        for i, rec in enumerate(job["recs"]):
+            got = {"ok": False, "what": "crash", "detail": "worker died: %s" % res["crash"]} if "crash" in res else res["out"][i]
+            if got["ok"]:
+                ok_dv += 1
+            else:
+                fams = "+".join(sorted({rx["delay"]["type"] for rx in rec["prog"]["rx"]}))
+                v.violation("replay-delay-volume:%s:%s" % (got["what"], fams), got["detail"], {"rec": rec, "via": job["via"], "got": got, "dv": True})
     # (T) seeded runs of the same programs, validated event by event
     items = []
     for i, rec in enumerate(recs[: (300 if tier == "quick" else 4000)]):
@@ -177,7 +269,7 @@ def run(tier):
     rc = v.finish()
     s = recs[3] if len(recs) > 3 else {}
     cov = {"states": g1.generated + g2.generated, "transitions": g1.generated + g2.generated,
-           "traces_validated_against_impl": ok + accepted,
+           "traces_validated_against_impl": ok + accepted + ok_dv, "delay_volume_behaviours_replayed": len(g3.records), "delay_volume_behaviours_exact": ok_dv,
            "samples": [{"prog": s.get("prog"), "dt": s.get("dt"), "x0": s.get("x0"), "steps": s.get("steps", [])[:8], "rows": s.get("rows"), "pending": s.get("pending")}],
            "behaviours_replayed": len(recs), "behaviours_exact": ok, "fire_events": nfire, "fires_by_delay_family": fam,
            "fires_queued": nq, "gamma_rejected_proposals": nrej, "behaviours_with_preloaded_queue": sum(1 for r in recs if r.get("preload")), "seeded_traces_accepted": accepted, "seeded_runs_skipped_unbounded": skipped,
@@ -193,7 +285,7 @@ def run(tier):
 def replay(path):
     case = json.load(open(path))["case"]
     if "rec" in case:
-        res = pool.run_jobs("c10", "impl_replay", [{"recs": [case["rec"]], "via": case.get("via", 0)}], nworkers=1)[0]
+        res = pool.run_jobs("c10", "impl_replay_dv" if case.get("dv") else "impl_replay", [{"recs": [case["rec"]], "via": case.get("via", 0)}], nworkers=1)[0]
         print(json.dumps(res, indent=1))
         bad = not res["out"][0]["ok"]
     else:
